@@ -34,6 +34,19 @@ class LazyIter(object):
         self.fn, self.sentinel = fn, sentinel
 
 
+class LazyGen(object):
+    """a generator expression: its elements are computed when asked for (next(), a for loop, all() / any() stop early); handing it to
+    any other operation takes all remaining elements"""
+    def __init__(self, it):
+        self.it = it
+
+    def __iter__(self):
+        return self.it
+
+    def rest(self):
+        return list(self.it)
+
+
 class DepthBound(Undecided):
     pass
 
@@ -326,6 +339,8 @@ class Explorer(object):
             raise Undecided('statement kind {} is outside the abstract interpreter'.format(type(st).__name__), st)
 
     def iterate(self, it, node):
+        if isinstance(it, LazyGen):
+            return it
         if isinstance(it, LazyIter):
             def gen():
                 while True:
@@ -408,7 +423,7 @@ class Explorer(object):
             c = self.port.module_consts(self.modname).get(e.id, NOT_HANDLED) if hasattr(self.port, 'module_consts') else NOT_HANDLED
             if c is not NOT_HANDLED:
                 return c
-            if e.id in ('len', 'iter', 'str', 'int', 'bool', 'list', 'tuple', 'isinstance', 'range', 'enumerate', 'min', 'max', 'any', 'all', 'type', 'set', 'Set', 'sorted', 'sum', 'Map', 'dict', 'Array', '__regex__', 'reversed', 'Boolean', 'map', 'filter', 'zip', '__keys__', 'typeof', 'String', 'Number'):
+            if e.id in ('len', 'iter', 'str', 'int', 'bool', 'list', 'tuple', 'isinstance', 'range', 'enumerate', 'min', 'max', 'any', 'all', 'type', 'set', 'Set', 'sorted', 'sum', 'Map', 'dict', 'Array', '__regex__', 'reversed', 'Boolean', 'map', 'filter', 'zip', '__keys__', 'typeof', 'String', 'Number', 'next'):
                 return ('builtin', e.id)
             if e.id in getattr(self.port, 'modules', {}) or e.id in ('re', 'os', 'sys', 'math', 'ast', 'heapq', 'JSON', 'Math', 'Object', 'Buffer', 'csv_utils', 'rbql_engine', 'rbql'):
                 return ('global', e.id)
@@ -513,7 +528,17 @@ class Explorer(object):
             return None
         if isinstance(e, ast.Lambda):
             return ('lambda', e, env)
-        if isinstance(e, (ast.ListComp, ast.GeneratorExp)) and len(e.generators) == 1:
+        if isinstance(e, ast.GeneratorExp) and len(e.generators) == 1:
+            g = e.generators[0]
+            src = self.expr(g.iter, env)         # the outermost iterable is evaluated where the generator expression stands
+
+            def gen(env2=dict(env)):
+                for v in self.iterate(src, e):
+                    self.assign(g.target, v, env2)
+                    if all(self.truth(self.expr(c, env2), c) for c in g.ifs):
+                        yield self.expr(e.elt, env2)
+            return LazyGen(gen())
+        if isinstance(e, ast.ListComp) and len(e.generators) == 1:
             g = e.generators[0]
             out = []
             env2 = dict(env)
@@ -669,6 +694,10 @@ class Explorer(object):
             else:
                 args.append(self.expr(a, env))
         kwargs = {k.arg: self.expr(k.value, env) for k in e.keywords if k.arg}
+        lazy_ok = isinstance(e.func, ast.Name) and e.func.id in ('next', 'all', 'any', 'iter') and e.func.id not in env
+        if not lazy_ok:
+            args = [a_.rest() if isinstance(a_, LazyGen) else a_ for a_ in args]
+            kwargs = {k_: (v_.rest() if isinstance(v_, LazyGen) else v_) for k_, v_ in kwargs.items()}
         self._kw = kwargs
         if self.on_call is not None:
             self.last_kwargs = kwargs          # keyword arguments of the call the hook is asked about
@@ -791,6 +820,30 @@ class Explorer(object):
         raise Undecided('call of {!r} is outside the abstract interpreter'.format(f), node)
 
     def builtin(self, name, args, node):
+        if name == 'next' and 1 <= len(args) <= 2 and isinstance(args[0], LazyGen):
+            for v_ in args[0]:
+                return v_
+            if len(args) == 2:
+                return args[1]
+            raise Raised(Abs('StopIteration'), node)
+        if name == 'next' and 1 <= len(args) <= 2 and isinstance(args[0], list):
+            # an iterator the interpreter holds as the list of its remaining elements
+            if args[0]:
+                return args[0].pop(0)
+            if len(args) == 2:
+                return args[1]
+            raise Raised(Abs('StopIteration'), node)
+        if name in ('all', 'any') and len(args) == 1 and isinstance(args[0], LazyGen):
+            for v_ in args[0]:
+                t_ = self.truth(v_, node)
+                if name == 'all' and not t_:
+                    return False
+                if name == 'any' and t_:
+                    return True
+            return name == 'all'
+        if name == 'iter' and len(args) == 1 and isinstance(args[0], LazyGen):
+            return args[0]
+        args = [a_.rest() if isinstance(a_, LazyGen) else a_ for a_ in args]
         if name == '__keys__' and len(args) == 1 and isinstance(args[0], dict):
             return [str(k_) for k_ in _js_property_order(args[0])]          # for (k in obj)
         if name == 'String' and len(args) == 1 and isinstance(args[0], (str, int)) and not isinstance(args[0], bool):
